@@ -355,6 +355,9 @@ def _json_problem(v, path="dict") -> Optional[str]:
             if p:
                 return p
         return None
+    if type(v).__name__ == "Opaque":
+        # a value the evaluation lost track of is no finding about the code
+        raise AnalysisError(f"C11.roundtrip: {path} could not be evaluated ({v!r})")
     return f"{path} is a {type(v).__name__} ({v!r}), which JSON and YAML cannot represent"
 
 
